@@ -135,7 +135,7 @@ PROPS['C02'] = dict(theorems=['acked_implies_stored', 'nothing_skipped', 'stored
 PROPS['C03'] = dict(theorems=['qos1_retransmit', 'qos2_publish_phase', 'qos2_pubrec_then_pubrel', 'qos2_pubrel_phase', 'completion_frees', 'wrong_ack_harmless', 'retransmitted_every_sweep', 'ended_session_frees_identifier', 'acknowledgement_completes'],
     level_text='Theorems (node model): an expired QoS 1 PUBLISH / QoS 2 PUBLISH / PUBREL of a live session is written again with the same identifier and re-armed; PUBREC moves a QoS 2 delivery to its PUBREL phase; the completing acknowledgement, or expiry after the session ended, sends nothing and returns the identifier to the pool; an acknowledgement of the wrong type or for an unknown identifier changes nothing. Over histories (Proofs/RetransmitFacts.v): in every reachable cluster state a sweep re-sends every pending delivery of a registered session with the same packet and leaves it pending under the same key and tag, and for an entry of a vanished session it leaves nothing holding the identifier and the pool has it back. Tied to the Go writer and in-flight queue by end-to-end scripts (acknowledge / stay silent for sweeps / wrong type / unknown identifier / session end, interleaved over 1-3 sessions) compared step by step (identifiers masked against the model, their discipline demanded by the oracle of the real values).',
     level_note=_E2E_NOTE,
-    families=[_broker([('acks', 64, 800)])], rule='acks: 1-3 sessions subscribed at QoS 1/2, 1-4 messages, per in-flight message the client acknowledges / stays silent for sweeps / answers with the wrong type or an unknown identifier / ends its session, interleaved; then a fresh subscriber shows which identifiers are reusable.')
+    families=[_broker([('acks', 64, 800)]), dict(name='ackqueue', corr='AckQueue', runs=[('random', 300, 4000)])], rule='ackqueue random (the in-flight table itself, wasp/ack/queue.go, as for C04: registrations with deadlines on a 250 ms grid around a slowly advancing clock, sweeps at arbitrary instants - an entry whose deadline has passed by the table\'s rounding must fire at the sweep that takes its bucket, or it is never retransmitted); acks: 1-3 sessions subscribed at QoS 1/2, 1-4 messages, per in-flight message the client acknowledges / stays silent for sweeps / answers with the wrong type or an unknown identifier / ends its session, interleaved; then a fresh subscriber shows which identifiers are reusable.')
 PROPS['C05'] = dict(theorems=['stored_iff_reported_ok', 'ack_after_store', 'qos2_never_on_publish_alone', 'qos2_not_again', 'pubrel_forwards_exactly_once'],
     level_text='Theorems (node model): Distribute reports success iff no local append and no remote write failed, and then the message is in the log of every destination; the worker writes PUBACK/PUBCOMP only then; a QoS 2 PUBLISH alone stores nothing; the PUBREL that finds the pending handshake hands exactly the stored publish to the publish path once (PUBCOMP being the acknowledgement of the worker) and removes the handshake; a PUBREL without a pending handshake (repeated, unknown, timed out) forwards nothing. Tied to the Go code by two-node scripts with injected log and network failures, repeated and unknown identifiers, a second session with the same client id.',
     level_note=_E2E_NOTE,
